@@ -47,6 +47,44 @@ def ty_to_model(t, st, phmap=None):
     return pg.answer_ty_model(t, st, phmap or {})
 
 
+def _match(pat, t, b):
+    """one-way matching of an abstract goal type (variables = goal variables) against a ground type"""
+    if pat[0] == "var":
+        if pat[1] in b:
+            return b[pat[1]] == t
+        b[pat[1]] = t
+        return True
+    if pat[0] != "adt" or t[0] != "adt" or pat[1] != t[1] or len(pat[2]) != len(t[2]):
+        return pat == t
+    return all(_match(x, y, b) for x, y in zip(pat[2], t[2]))
+
+
+def header_candidates(it, evars, fill):
+    """candidate solutions read off the ground impl headers: every goal atom over a trait is
+    matched against every ground impl header of that trait"""
+    out = []
+    atoms = []
+
+    def walk(g):
+        if g[0] == "atom":
+            atoms.append(g[1])
+        elif g[0] == "and":
+            for x in g[1]:
+                walk(x)
+        elif g[0] in ("forall", "exists"):
+            walk(g[2])
+        elif g[0] == "if":
+            walk(g[2])
+    walk(it.goal)
+    for a in atoms:
+        for im in it.prog.impls:
+            if im.positive and im.nvars == 0 and im.head[0] == a[0]:
+                b = {}
+                if all(_match(x, y, b) for x, y in zip(a[1], im.head[1])):
+                    out.append([b.get(v, fill) for v in evars])
+    return out
+
+
 def candidates(it, rng, max_cands, prefix_m, ubs):
     """list of candidate solutions (lists of abstract ground types, one per exists variable)"""
     n = len(ubs)
@@ -68,6 +106,10 @@ def candidates(it, rng, max_cands, prefix_m, ubs):
         rng.shuffle(rest)
         prod = head + rest[:max_cands - len(head)]
     cands = [list(c) for c in prod]
+    _, _, evs = pg.peel(it.goal)
+    for c in header_candidates(it, evs, pool[0] if pool else ("adt", it.prog.adts[0].name, ())):
+        if len(c) == n and c not in cands and all(pg.ty_vars(t) == set() for t in c):
+            cands.append(c)
     # instances of the solvers' own substitutions (answer variables := pool types)
     for sname in it.answers:
         pre, ans = it.answers[sname]
@@ -111,7 +153,7 @@ def run(ctx):
     rng = ctx.rng
     phase = {"proof": round(time.time() - t_start, 1)}
     t0 = time.time()
-    progs, items = sc.fragment_items(rng, ctx.n(28, 330), 3, 3, 6, extra=[(pg.shape_andor, ctx.n(60, 650))])
+    progs, items = sc.fragment_items(rng, ctx.n(28, 330), 3, 3, 6, extra=[(pg.shape_andor, ctx.n(60, 650)), (pg.shape_multi_arg, ctx.n(14, 120))])
     mism, perr = sc.run_items(items, cpu=ctx.n(4, 6), timeout=ctx.n(600, 3000))
     phase["solvers"] = round(time.time() - t0, 1)
     if mism:
